@@ -954,6 +954,8 @@ class SQLLiteQueryBuilder(QueryBuilder):
     QUERY_CLS = SQLLiteQuery
 
     def __init__(self, **kwargs: Any) -> None:
+        # SQLite rejects parenthesised operands of UNION / INTERSECT / EXCEPT
+        kwargs.setdefault("wrap_set_operation_queries", False)
         super().__init__(dialect=Dialects.SQLLITE, wrapper_cls=SQLLiteValueWrapper, **kwargs)
         self._insert_or_replace = False
 
